@@ -30,6 +30,10 @@ Headers == {
   [h |-> "application/json; charset=utf-8", mt |-> "application/json"],
   [h |-> "application/json ; charset=utf-8", mt |-> "application/json"],
   [h |-> "application/json;charset=utf-8", mt |-> "application/json"],
+  \* the parameter section is ignored, well-formed or not
+  [h |-> "application/json; charset", mt |-> "application/json"],
+  [h |-> "application/json;;charset=utf-8", mt |-> "application/json"],
+  [h |-> "application/json; charset=utf-8; charset=iso-8859-1", mt |-> "application/json"],
   [h |-> "application/x-www-form-urlencoded", mt |-> "application/x-www-form-urlencoded"],
   [h |-> "application/x-www-form-urlencoded; charset=UTF-8", mt |-> "application/x-www-form-urlencoded"],
   [h |-> "text/plain", mt |-> "text/plain"],
